@@ -93,4 +93,32 @@ theorem C09_thresholds_nest (x : Nat) : fgt x 0x3F490FDB = true → fgt x 0x3F1C
 example : run {} [.rotator 0x7A 0x3F5F66F3 0 0, .engine 1500, .rotator 0x6A 0 0 0x3F000000] =
     [emergencySeq, emergencySeq, []] := by decide
 
+/-! ### the translator tie -/
+
+/-- a packet of the sequence as a translated row: [0, control code, on] | [1, motion type, 0] | [2, 0, 0] = shutdown -/
+def rowOf : Packet → List Nat
+  | .control c => [0, c.code, if c.arg then 1 else 0]
+  | .motion .stopAll => [1, motionTypeStopAll, 0]
+  | .motion .resumeAll => [1, motionTypeResumeAll, 0]
+  | .motion .resetAll => [1, motionTypeResetAll, 0]
+  | .engine e => if e = Engine.shutdown then [2, 0, 0] else [2, 1, e.rpm]
+  | _ => [9, 9, 9]
+
+/-- TRANSLATION THEOREM: the list of objects the translator reads off `Director::command_emergency` in the current source
+(in source order) is the model's emergency sequence -/
+theorem C09_emergency_sequence_translated : emergencySeq.map rowOf = directorEmergencySeq := by decide
+
+/-- TRANSLATION THEOREM for the decision of `wait_io_sub`: in the table the translator reads off the source on this run,
+the director is built in Supervised mode, decides on the maximum verdict (Nominal when there is none), Emergency is the
+greatest verdict, the ONLY arm that does anything in Supervised mode is the Emergency arm, and what it does is the
+emergency sequence - which is `Dir.step`: the sequence iff some stored verdict is Emergency, nothing otherwise.
+(An arm that sends something ungated, or gated on Supervised, for another verdict breaks this theorem.) -/
+theorem C09_decision_translated :
+    directorBuiltSupervised = true ∧ directorElectsMaxOrNominal = true ∧
+    directorDecisionArms.contains [directorVerdictEmergency, 1, 0] = true ∧
+    (directorDecisionArms.all fun row => row.getD 0 0 ≤ directorVerdictEmergency) = true ∧
+    (directorDecisionArms.all fun row =>
+      -- acts in Supervised mode (gate 1) or unconditionally (gate 0 with an action): only the Emergency row may
+      (row.getD 1 9 == 2 || row.getD 2 9 == 8) || row == [directorVerdictEmergency, 1, 0]) = true := by decide
+
 end Glonax.Thm.C09
